@@ -665,6 +665,43 @@ class Evaluator:
         c0 = tm.truth(self.expr(st.test, fr))
         if c0 is False:
             return False
+        if c0 is True:
+            # the trip count may depend only on literal structure (length of a list literal, a concrete counter):
+            # unroll while the test keeps folding; if it turns symbolic, fall back to the loop summary from the start
+            snap_env = clone(fr.env)
+            snap_facts = list(fr.facts)
+            sm = fr.summary
+            marks = (len(sm.exits), len(sm.calls), len(sm.hazards), len(sm.loops))
+            ok = True
+            n = 0
+            try:
+                while True:
+                    c = tm.truth(self.expr(st.test, fr))
+                    if c is False:
+                        break
+                    if c is not True or n >= MAX_UNROLL:
+                        ok = False
+                        break
+                    n += 1
+                    try:
+                        if self.block(st.body, fr):
+                            return True
+                    except _Break:
+                        break
+                    except _Continue:
+                        pass
+                    if fr.env.pop("__loopctl__", None):
+                        ok = False
+                        break
+            except AnalysisError:
+                ok = False
+            if ok:
+                if st.orelse:
+                    return self.block(st.orelse, fr)
+                return False
+            fr.env = snap_env
+            fr.facts = snap_facts
+            del sm.exits[marks[0]:], sm.calls[marks[1]:], sm.hazards[marks[2]:], sm.loops[marks[3]:]
         return self.sym_loop(st, fr, None)
 
     def sym_loop(self, st, fr, it):
